@@ -82,13 +82,19 @@ class FuncInfo:
         self.is_classmethod = False
         self.is_property = False
         self.is_contextmanager = False  # @contextlib.contextmanager
+        self.is_abstract = False  # @abc.abstractmethod
+        self.is_cached_property = False  # @functools.cached_property: computed once per instance, then an ordinary instance attribute
         self.memo_decorator = None  # text of a functools.lru_cache / cache decorator
         self.other_decorators = []  # texts of decorators the model gives no meaning to
         if not isinstance(node, ast.Lambda):
             for d in node.decorator_list:
                 txt = ast.unparse(d)
                 head = txt.split("(")[0]
-                if head.split(".")[-1] == "contextmanager":
+                if head.split(".")[-1] == "abstractmethod":
+                    self.is_abstract = True
+                if head.split(".")[-1] == "cached_property":
+                    self.is_cached_property = True
+                elif head.split(".")[-1] == "contextmanager":
                     self.is_contextmanager = True
                 elif head.split(".")[-1] in ("lru_cache", "cache"):
                     self.memo_decorator = txt
